@@ -201,6 +201,10 @@ theorem lt_of_getElem?_some {α} {l : List α} {j : Nat} {q : α} (h : l[j]? = s
   · exact h'
   · rw [List.getElem?_eq_none h'] at h; cases h
 
+theorem keepCand_none (n0 base c : Nat) : keepCand n0 base (none, c) = true := rfl
+theorem keepCand_some (n0 base j c : Nat) :
+    keepCand n0 base (some j, c) = (decide (j < n0) || decide (base ≤ j)) := rfl
+
 /-- a candidate in `forward_cands` of source `i`: the null link, or a feature of the level within
 range that is either a detected one or one added for the current sub-net -/
 theorem mem_fcands {cfg : Cfg} {st : State} {t : Int} {n0 base : Nat} {lvl : List Pos} {i : Nat}
